@@ -53,17 +53,21 @@ def main():
 
     # ---- 1. GEN --------------------------------------------------------------
     gen_info = {}
-    if getattr(mod, "GEN", True):
-        import extract
-        with common.flock("gen"):
+    genprove = common.flock("genprove")
+    genprove.__enter__()   # the regenerated tables must not change between GEN and the build that checks them
+    try:
+        if getattr(mod, "GEN", True):
+            import extract
             gen_info = extract.generate()
-        log("GEN: %s" % gen_info.get("summary", "ok"))
-    ctx.gen = gen_info
+            log("GEN: %s" % gen_info.get("summary", "ok"))
+        ctx.gen = gen_info
+        ok, out = common.lake_build([mod.MODULE] + list(mod.EXES))
+    finally:
+        genprove.__exit__(None, None, None)
 
     # ---- 2. PROVE ------------------------------------------------------------
     broken = []          # names of theorems / obligations that no longer check
     build_errors = []
-    ok, out = common.lake_build([mod.MODULE] + list(mod.EXES))
     if not ok:
         # is it the proof side or the drivers?
         okp, outp = common.lake_build([mod.MODULE])
@@ -89,7 +93,10 @@ def main():
             bad = [a for a in axs if a not in common.ALLOWED_AXIOMS]
             if bad:
                 broken.append("theorem %s depends on %s" % (t, ",".join(bad)))
-        hits = common.grep_forbidden()
+        exe_roots = {'m_frame': 'MFrame', 'm_cmd': 'MCmd', 'm_resp': 'MResp', 'm_memval': 'MMemval',
+                     'm_gearseq': 'MGearseq', 'm_devseq': 'MDevseq', 'm_memseq': 'MMemseq', 'm_wire': 'MWire',
+                     'm_rx': 'MRx', 'm_drv': 'MDrv', 'm_watch': 'MWatch'}
+        hits = common.grep_forbidden([mod.MODULE] + [exe_roots[e] for e in mod.EXES if e in exe_roots])
         if hits:
             broken.append("forbidden words in Lean sources: " + "; ".join(hits[:5]))
         if ctx.thorough:
@@ -106,7 +113,11 @@ def main():
     ctx.proof_broken = bool(broken)
     ctx.log = log
     try:
-        mod.correspond(ctx, corr)
+        if exes_ok:
+            mod.correspond(ctx, corr)
+        else:
+            broken.append("model drivers %s do not build (regenerated tables no longer fit the model)" % mod.EXES)
+            log("CORRESPOND: skipped, model drivers unavailable")
     except InfraError:
         raise
     except Exception:
